@@ -368,6 +368,39 @@ impl Meta {
         script.extend(l1.iter().cloned());
         let n = rng.range(1, 5);
         for _ in 0..n {
+            if rng.chance(1, 6) {
+                // a run that is interrupted somewhere in the middle
+                let slices = rng.range(1, 40);
+                script.push(format!("RUN  (interrupted after {} slices of 17 instructions)", slices));
+                s.enter("RUN");
+                let mut used = s.auto_pos;
+                let replies = s.auto_replies.clone();
+                for _ in 0..slices {
+                    match s.step_q(17) {
+                        Some(Stop::Stopped) => break,
+                        Some(Stop::Input(..)) => {
+                            if used < replies.len() {
+                                s.enter(&replies[used]);
+                                used += 1;
+                            } else {
+                                break;
+                            }
+                        }
+                        Some(Stop::Inkey) => {
+                            s.enter("");
+                        }
+                        _ => {}
+                    }
+                }
+                s.auto_pos = used;
+                s.interrupt();
+                if s.drain(64) != Stop::Stopped {
+                    ctx.violation("interrupt-ignored", "reset:interrupt-no-stop", "an interrupted run did not stop", &script.join("\n"));
+                    return;
+                }
+                ctx.count("prefix_runs_interrupted");
+                continue;
+            }
             let c = if rng.chance(1, 3) { "RUN".to_string() } else { rng.pick(&directs).to_string() };
             script.push(c.clone());
             let (_, st) = cmd(&mut s, &c);
@@ -414,13 +447,19 @@ impl Meta {
                 return;
             }
         }
-        script.push("RUN".into());
+        // RUN, or RUN n: CLEAR followed by GOTO n
+        let fin = if rng.chance(1, 4) && !p2.lines.is_empty() {
+            format!("RUN {}", p2.num(p2.lines[rng.usize(p2.lines.len())].label))
+        } else {
+            "RUN".to_string()
+        };
+        script.push(fin.clone());
         let text = script.join("\n");
         mon::journal(&text);
         s.auto_replies = p2.replies.clone();
-        let (t_hist, st) = cmd0(&mut s, "RUN");
+        let (t_hist, st) = cmd0(&mut s, &fin);
         let mut f = typed_p(&p2, &l2);
-        let (t_fresh, st2) = cmd0(&mut f, "RUN");
+        let (t_fresh, st2) = cmd0(&mut f, &fin);
         if st == Stop::Budget || st2 == Stop::Budget {
             ctx.count("discarded_budget");
             return;
